@@ -200,7 +200,54 @@ func c18Kind(line string) string {
 	})
 }
 
-func c18DNS(line string, queries []string) string {
+// c18Side is a list standing next to the list under test in the storage of c18DNS.  It never lists a queried
+// name: it yields no rule at all (empty, comments, rejected lines, ignored cosmetic rules) or only rules
+// about names of its own, so the answers are those of the one-line list alone -- however the lists are split.
+type c18Side struct {
+	text   string
+	ign    bool
+	file   bool
+	before bool
+}
+
+// c18Sides draws 0..4 side lists; mostly at least one rule-less list BEFORE the list under test (a
+// list that yields nothing must not hide the lists after it), often after another list.
+func c18Sides(r *rng) (out []c18Side, note string) {
+	if r.chance(2, 5) {
+		return nil, ""
+	}
+	n := 1 + r.n(4)
+	var notes []string
+	for i := 0; i < n; i++ {
+		var sd c18Side
+		if r.chance(2, 3) {
+			lines, ign := mRuleLessBody(r)
+			sd.text = strings.Join(lines, "\n")
+			if lines != nil && r.chance(2, 3) {
+				sd.text += "\n"
+			}
+			sd.ign = ign
+		} else {
+			sd.text = fmt.Sprintf("0.0.0.0 side%d.invalid www.side%d.invalid\n# end\n||net-side%d.invalid^\n", i, i, i)
+			if r.chance(1, 3) {
+				sd.text = fmt.Sprintf("side%d.invalid", i) // a single bare name, no line break
+			}
+			sd.ign = r.chance(1, 2)
+		}
+		sd.before = r.chance(3, 4)
+		sd.file = r.chance(1, 4)
+		out = append(out, sd)
+		pos := "after"
+		if sd.before {
+			pos = "before"
+		}
+		notes = append(notes, fmt.Sprintf("%s:%q", pos, sd.text))
+	}
+
+	return out, " side lists (each group in this order) [" + strings.Join(notes, " ") + "]"
+}
+
+func c18DNS(line string, queries []string, sides ...c18Side) string {
 	return guardStr(func() string {
 		r, _ := rules.NewRule(line, 1)
 		if _, ok := r.(*rules.HostRule); !ok {
@@ -211,7 +258,16 @@ func c18DNS(line string, queries []string) string {
 			// family c18chunk (op_m4_readers.go): the same line served by a reader with short reads
 			list = c18ListHook(line)
 		}
-		s, err := filterlist.NewRuleStorage([]filterlist.RuleList{list})
+		var before, after []filterlist.RuleList
+		for i, sd := range sides {
+			l := r1NewList(2+i, sd.text, sd.ign, sd.file)
+			if sd.before {
+				before = append(before, l)
+			} else {
+				after = append(after, l)
+			}
+		}
+		s, err := filterlist.NewRuleStorage(append(append(before, list), after...))
 		if err != nil {
 			return "storage-error"
 		}
@@ -321,6 +377,7 @@ func genC18(r *rng, n int, w *bufio.Writer) {
 				uq = append(uq, q)
 			}
 		}
-		fmt.Fprintf(w, "c18.dns %s %s %s = %s ## %q\n", wb(line), tables, wstrs(uq), c18DNS(line, uq), line)
+		sides, sideNote := c18Sides(r)
+		fmt.Fprintf(w, "c18.dns %s %s %s = %s ## %q%s\n", wb(line), tables, wstrs(uq), c18DNS(line, uq, sides...), line, sideNote)
 	}
 }
